@@ -917,11 +917,17 @@ def run(chk: lib.Check):
         "the reloaded model = raw scan of the in-memory .afm. Extremes stream (coverage.histories.extremes = deepest XML level / longest value "
         "reached): chains of 258..900 creations inside one another (functions, components, packages, two layers) and single values of "
         "more than 10,000,000 characters in an attribute and in element text must save and reload equal, under the interpreter's default "
-        "recursion limit. Comparison is modulo formatting whitespace (blank tails, blank text in front of a first child)" % len(PIECES))
+        "recursion limit. Comparison is modulo formatting whitespace (blank tails, blank text in front of a first child). Fragmented layouts "
+        "(coverage.histories.fragmented): the small models and one big one split by harness/fragmenter.py into Capella's layout (fragments "
+        "of architecture layers / packages in sub-directories, nested, names with spaces / non-ASCII, .airdfragment chain); the same "
+        "operations plus, in every round, an edit INSIDE every fragment file (rename / describe / summarise an element or the fragment "
+        "root, create / delete a child); every file of the reloaded model is compared tree by tree, and the set of files on disk before "
+        "and after every save() (of every history, fragmented or not) must be the same, each held file present at its path" % len(PIECES))
     chk.assumptions += [
         "save() writes the primary resource only: histories edit objects of the primary resource; an edit to an object of a referenced library is accepted by the API and silently not persisted (observed on 'Library Project', by design of MelodyLoader.save)",
         "lxml's parser is represented by the reference reader (sampled in C01); the API-level claim 'edits keep trees inside the writer's domain' is checked by the differential run only",
         "libxml2 drops blank runs under remove_blank_text only below its 300-character buffer: below ~150 levels the indentation written by save() is reloaded as whitespace tails (memory has None); the writer ignores blank tails and a reloaded deep model saves byte-identically (measured at 320..950 levels), so blank tails/pre-child text are not counted as information. Somewhere between 950 and 1500 levels save() ends in RecursionError under the interpreter's default recursion limit (the writer recurses per level): the extremes stream stays below 900",
+        "fragmented models: the file shape produced by harness/fragmenter.py is what Capella writes (no fragmented model in the corpus, no Capella offline)",
         "a history in which the API refused an operation and whose mismatch disappears without that operation is not counted (partial state after a refused edit is C04/C09's subject)",
     ]
 
